@@ -12,8 +12,10 @@ package main
 
 import (
 	"bytes"
+	"compress/zlib"
 	"encoding/json"
 	"fmt"
+	"hash/crc32"
 	"image"
 	"image/color"
 	"os"
@@ -105,6 +107,31 @@ func twoChunkJPEG(tag byte) []byte {
 	return append(b, []byte("\xff\xc0\x00\x11\x08\x00\x20\x00\x30\x03\x01\x22\x00\x02\x11\x01\x03\x11\x01\xff\xda\x00\x0c\x03\x01\x00\x02\x11\x03\x11\x00\x3f\x00\x00")...)
 }
 
+// pngWithICC is a 2x3 PNG with an iCCP chunk (deflated) holding a 40-byte
+// profile whose bytes are distinct per tag.
+func pngWithICC(tag byte) []byte {
+	chunk := func(typ string, data []byte) []byte {
+		b := []byte{byte(len(data) >> 24), byte(len(data) >> 16), byte(len(data) >> 8), byte(len(data))}
+		b = append(b, typ...)
+		b = append(b, data...)
+		c := crc32.ChecksumIEEE(b[4:])
+		return append(b, byte(c>>24), byte(c>>16), byte(c>>8), byte(c))
+	}
+	prof := make([]byte, 40)
+	for i := range prof {
+		prof[i] = tag + byte(i*7)
+	}
+	var z bytes.Buffer
+	zw := zlib.NewWriter(&z)
+	zw.Write(prof)
+	zw.Close()
+	b := []byte("\x89PNG\r\n\x1a\n")
+	b = append(b, chunk("IHDR", []byte{0, 0, 0, 2, 0, 0, 0, 3, 8, 2, 0, 0, 0})...)
+	b = append(b, chunk("iCCP", append([]byte("p\x00\x00"), z.Bytes()...))...)
+	b = append(b, chunk("IDAT", []byte{0x78, 0x9c, 1, 2, 3})...)
+	return append(b, chunk("IEND", nil)...)
+}
+
 func tinyWebP() []byte {
 	return []byte("RIFF\x1a\x00\x00\x00WEBPVP8L\x0d\x00\x00\x00\x2f\x13\x40\x02\x10\x01\x02\x03\x04\x05\x00\x00\x00")
 }
@@ -112,6 +139,8 @@ func tinyWebP() []byte {
 func loadString(load func(io.Reader) (*meta.Data, io.Reader, error), data []byte) func() string {
 	return func() string {
 		md, st, err := load(bytes.NewReader(data))
+		// the caller may be descheduled between getting its results and using them
+		vrt.SyncPoint("caller: Load returned")
 		rest, _ := io.ReadAll(st)
 		if md == nil {
 			return fmt.Sprintf("nil/%v/%d", err != nil, len(rest))
@@ -257,6 +286,8 @@ func scenarios() []scenario {
 	// metadata and colorimetry
 	out = append(out,
 		scenario{"meta/two pngmeta.Load", par(loadString(pngmeta.Load, tinyPNG()), loadString(pngmeta.Load, tinyPNG()))},
+		scenario{"meta/two pngmeta.Load with iCCP", par(loadString(pngmeta.Load, pngWithICC(0x11)), loadString(pngmeta.Load, pngWithICC(0x83)))},
+		scenario{"meta/autometa.Load x2 png with iCCP", par(loadString(autometa.Load, pngWithICC(0x21)), loadString(autometa.Load, pngWithICC(0x93)))},
 		scenario{"meta/two jpegmeta.Load", par(loadString(jpegmeta.Load, tinyJPEG()), loadString(jpegmeta.Load, tinyJPEG()))},
 		scenario{"meta/two jpegmeta.Load multi-chunk ICC", par(loadString(jpegmeta.Load, twoChunkJPEG(0x10)), loadString(jpegmeta.Load, twoChunkJPEG(0x80)))},
 		scenario{"meta/autometa.Load x2 multi-chunk ICC", par(loadString(autometa.Load, twoChunkJPEG(0x20)), loadString(autometa.Load, twoChunkJPEG(0x90)))},
